@@ -1,6 +1,7 @@
 import DriverLib.Store
 import QV.Model.PhaseAux
 import QV.Model.Optim
+import QV.Model.InitLaw
 open Lean Drv QV QV.PhaseAux QV.Optim
 
 namespace Drv.C20
@@ -116,12 +117,39 @@ def rule (j : Json) : R Json := do
     return fListOut (nadamRule.trace ⟨p0, 0.0, 0.0, 1.0, 0⟩ cgs)
   | _ => throw s!"unknown rule {kind}"
 
+/-- op `c20.init_values`: the values written by a constructor (`form = "ctor"`: sizes `nh`/`na` may be null = omitted) or by
+`initialize_parameters` (`form = "init"`: the module's size attributes `nh`, `na` as numbers) — `QV.InitLaw.construct` /
+`QV.InitLaw.initParams` on the recorded standard-normal draws (bit patterns; positions past the end read 0).
+out: W, U (null for binary), b, c, d (null for binary), sizes [nv, nh, na], consumed (new stream position). -/
+def initValues (j : Json) : R Json := do
+  let kind ← jStr (← fld j "kind")
+  let k : QV.Store.NetKind ← (match kind with
+    | "binary" => pure .binary
+    | "purif" => pure .purif
+    | _ => throw s!"unknown net kind {kind}")
+  let form ← jStr (← fld j "form")
+  let nv ← jNat (← fld j "nv")
+  let zw ← jBool (← fld j "zero")
+  let ds ← jFloatArr (← fld j "draws")
+  let draws : Nat → Float := fun t => ds.getD t 0.0
+  let nh ← Drv.Store.jOptNat j "nh"
+  let na ← Drv.Store.jOptNat j "na"
+  let (r, sizes) ← (match form with
+    | "ctor" => pure (QV.InitLaw.construct k nv nh na zw draws 0, QV.InitLaw.ctorSizes k nv nh na)
+    | "init" => pure (QV.InitLaw.initParams k nv (nh.getD 0) (na.getD 0) zw draws 0, (nv, nh.getD 0, na.getD 0))
+    | _ => throw s!"unknown form {form}")
+  let mOut (m : List (List Float)) : Json := .arr (m.toArray.map fListOut)
+  return Json.mkObj [("W", mOut r.1.W), ("U", match r.1.U with | some u => mOut u | none => .null),
+    ("b", fListOut r.1.b), ("c", fListOut r.1.c), ("d", match r.1.d with | some d => fListOut d | none => .null),
+    ("sizes", .arr #[nOut sizes.1, nOut sizes.2.1, nOut sizes.2.2]), ("consumed", nOut r.2)]
+
 def handle (op : String) (j : Json) : Option (R Json) :=
   match op with
   | "c20.run" => some (Drv.Store.runOps j)
   | "c20.optim" => some (optim j)
   | "c20.auxgrad" => some (auxgrad j)
   | "c20.rule" => some (rule j)
+  | "c20.init_values" => some (initValues j)
   | _ => none
 
 end Drv.C20
